@@ -168,7 +168,18 @@ struct Fixture {
 }
 
 fn make_fixture(rng: &mut StdRng, len: usize) -> Fixture {
-    let mut setup = Setup::new(rng, 3);
+    // edge-biased start of the chain: block numbers 0 and "no pre-genesis" are boundary cases of the store arithmetic
+    let mut spec = validator::testonly::SetupSpec::new(rng, 3);
+    match rng.gen_range(0..10) {
+        0 | 1 | 2 => spec.first_pregenesis_block = validator::BlockNumber(0),
+        3 => {
+            spec.first_block = validator::BlockNumber(0);
+            spec.first_pregenesis_block = validator::BlockNumber(0);
+        }
+        4 => spec.first_pregenesis_block = spec.first_block,
+        _ => {}
+    }
+    let mut setup = Setup::from_spec(rng, spec);
     // the fork shares the pre-genesis blocks and the first `common` certified blocks
     let common = rng.gen_range(0..len / 2);
     setup.push_blocks_v2(rng, common);
@@ -332,6 +343,12 @@ fn run_case(rep: &mut Report, args: &Args, case: u64, multi: bool) {
     let counters: Mutex<BTreeMap<String, u64>> = Mutex::default();
     let bump = |k: &str| *counters.lock().unwrap().entry(k.to_string()).or_default() += 1;
     let last_number = fx.chain.last().unwrap().number().0;
+    if first_stored.0 == 0 {
+        bump("chains_starting_at_block_0");
+    }
+    if fx.setup.first_block() == first_stored {
+        bump("chains_without_pregenesis_blocks");
+    }
     rt.block_on(async {
         let root = ctx::root();
         for phase in 0..phases {
@@ -438,12 +455,15 @@ fn run_case(rep: &mut Report, args: &Args, case: u64, multi: bool) {
                 let mut r = rng_for(seed, 999, 82, 0);
                 // some phases stall persistence for their whole duration, so that far more blocks than the cache
                 // capacity (100) are queued but not persisted
-                let long_stall = !last_phase && r.gen_bool(0.4);
+                let long_stall = !last_phase && r.gen_bool(if phase == 0 { 0.6 } else { 0.4 });
+                // a long stall ends on a logical condition: more unpersisted blocks queued than the cache holds (or the chain is
+                // exhausted); the wall-clock budget is only a generous upper bound
+                let stall_target = r.gen_range(101..140u64);
                 if long_stall {
                     engine.0.mode.store(1, Ordering::SeqCst);
                     bump("long_stall_phases");
                 }
-                let budget_ms = if last_phase { 120_000 } else if long_stall { r.gen_range(150..400) } else { r.gen_range(20..250) };
+                let budget_ms = if last_phase { 120_000 } else if long_stall { 8_000 } else { r.gen_range(20..250) };
                 let t0 = std::time::Instant::now();
                 loop {
                     if ctx.sleep(time::Duration::milliseconds(r.gen_range(1..15))).await.is_err() {
@@ -484,6 +504,20 @@ fn run_case(rep: &mut Report, args: &Args, case: u64, multi: bool) {
                                 bump("storage_failures_injected");
                             }
                             _ => {}
+                        }
+                    }
+                    if long_stall {
+                        let q = manager.queued().next().0;
+                        if q.saturating_sub(engine.next()) >= stall_target || q > last_number {
+                            bump("long_stalls_beyond_cache_capacity");
+                            if engine.0.blocks.lock().unwrap().is_empty() {
+                                bump("long_stalls_beyond_cache_capacity_on_empty_store");
+                            }
+                            // keep the backlog for a few more probes before the phase ends
+                            for _ in 0..20 {
+                                probe.check(ctx, manager, engine, valid, r.gen()).await;
+                            }
+                            break;
                         }
                     }
                     if t0.elapsed().as_millis() as u64 > budget_ms {
